@@ -2,6 +2,10 @@ NOTE_COMMON = ("trusts gqlparser v2.5.1 (also used by pebbles), the harness's se
                "the Go runtime and race detector; absence of violations is a statement about the explored cases only")
 
 CHECKS = [
+    {"property_id": "C11", "category": "exploration", "design_ref": "DESIGN.md §5 C11",
+     "technique": "property-based testing (rapid) of the real MultiOpQueryer over a parking fake transport; exhaustive small grid of (N, m)",
+     "text": "the real MultiOpQueryer.Query is called with N token-carrying requests and max batch size m over a fake RoundTripper that parks every HTTP call and releases them in a drawn order, optionally failing the call that carries a drawn request (transport error, 500, non-JSON, GraphQL errors) and sending some requests as multipart uploads; the oracle checks N results with result i echoing request i, every request in exactly one call, at most m per call, error without partial results on failure, no goroutine left. The grid N 0..40 x m 1..12 x {FIFO, LIFO} is enumerated exhaustively on every run; thorough adds the race detector",
+     "level_note": NOTE_COMMON + "; completion order is owned at the transport only"},
     {"property_id": "C07", "category": "exploration", "design_ref": "DESIGN.md §5 C07",
      "technique": "property-based testing (rapid) over byte strings, JSON shapes, multipart layouts and operations; native go fuzzing of the handler in the thorough tier",
      "text": "generated POST requests (raw bytes, hostile constants, byte-mutated valid bodies, JSON shape grammar, multipart layout grammar, syntactically valid operations against corner-case schemas) are sent through the real handler of a gateway over a generated world; the oracle demands a return without panic or process death, status 422 exactly when an independent reading of the documented request shape says undecodable (open cases accept both), a JSON envelope with data and/or errors per operation, errors + data:null for operations invalid against the gateway schema, and a correctly answered probe request afterwards",
@@ -32,7 +36,7 @@ CHECKS = [
      "level_note": NOTE_COMMON + "; schedule control limited to callbacks and the 9 verif hook points"},
 ]
 
-_PENDING = ["C06","C08","C09","C10","C11","C12","C13","C14","C15","C16","C17","C18","C19"]
+_PENDING = ["C06","C08","C09","C10","C12","C13","C14","C15","C16","C17","C18","C19"]
 NOT_APPLICABLE = [{"property_id": p, "reason": "check not built yet (work in progress; the technique applies, see DESIGN.md §5)"} for p in _PENDING]
 
 NOTES = "All checks are property-based tests / fuzz targets in /verif/harness (Go, rapid v1.3.0) run by /verif/check; see DESIGN.md."
